@@ -57,7 +57,12 @@ class FakeUDP:
             raise self.mod.error('closed')
         return self.inbox.pop(0)[:n], ('10.0.0.7', 4711)
 
+    fail_sends = ()
+
     def sendto(self, msg, addr):
+        self.nsend = getattr(self, 'nsend', 0) + 1
+        if self.nsend - 1 in self.fail_sends:
+            raise OSError(22, 'Invalid argument')      # e.g. an answer to port 0, or an unreachable network
         self.sent.append((msg, addr))
 
     def close(self):
@@ -82,7 +87,29 @@ def cases(tier):
     depth = 3 if tier == 'thorough' else 2
     for first in range(len(DATAGRAMS)):
         out.append({'fn': 'run_datagrams', 'id': f'datagrams/first{first}', 'params': {'first': first, 'depth': depth}})
+    out.append({'fn': 'run_send_failure', 'id': 'send-failure', 'params': {}})
     return out
+
+
+def run_send_failure(env, p):
+    """an answer (or the start-up announcement) that can not be sent does not stop the responder"""
+    startup = bool(env.choice('startup-broadcast', 2))
+    udp, sock = make('eq', 'desc', ['tcp://10767'], startup_broadcast=startup)
+    K = 'C19/send-failure'
+    nreq = 3
+    failing = env.choice('failing-send', nreq + (1 if startup else 0))
+    sock.fail_sends = (failing,)
+    sock.inbox = [b'{"SECoP": "discover"}'] * nreq
+    try:
+        udp.run()
+    except Exception as e:
+        env.fail(K + '/responder-killed-by-a-send-error/' + type(e).__name__, [startup, failing, repr(e)])
+        return
+    env.check(sock.inbox == [], K + '/stopped-listening', len(sock.inbox))
+    total = nreq + (1 if startup else 0)
+    env.check(len(sock.sent) == total - 1, K + '/later-requests-not-answered', [startup, failing, len(sock.sent)])
+    for t in REQUIRED_TAGS:
+        env.note(t)
 
 
 def run_size(env, p):
